@@ -7,6 +7,7 @@ CONSTANTS
   MaxPTail = 6
   MaxDTail = 6
   MaxD2Tail = 7
+  MaxD3Tail = 6
   PayChars = {":", "_", "1", "x", "-"}
   MaxPay = 3
   MaxDeltaPay = 2
